@@ -20,6 +20,9 @@ type Case06 struct {
 	Frag  B `json:"frag"`  // text for the '#f' law
 	Query B `json:"query"` // text for the '?q' law
 	Blank B `json:"blank"` // a reference made of C0 control / space / tab / newline only (trimmed to empty)
+	// Touch: the parsed base's SearchParams() were read (Has / Get) before anything was resolved
+	// against it; reading must not change what resolution yields
+	Touch bool `json:"touch,omitempty"`
 }
 
 // preprocess does what the parser does to a fresh input before the state machine: trim leading and
@@ -99,6 +102,12 @@ func Check06(c Case06, r *core.Rec) {
 			r.Class("a:base-unparseable")
 			r.Vacuous()
 			return
+		}
+		if c.Touch {
+			sp := b.SearchParams()
+			_ = sp.Has("a")
+			_ = sp.Get("b")
+			r.Class("base-list-read")
 		}
 		before := ObsOf(b)
 		u3, e3 := b.Parse(ref)
@@ -343,6 +352,10 @@ func Gen06(t *rapid.T) Case06 {
 		c.Query = B(strings.TrimPrefix(gen.Pick(t, "query", gen.SetterPools[7]), "?"))
 	}
 	c.Blank = B(gen.Pick(t, "blank", blanks))
+	c.Touch = rapid.IntRange(0, 2).Draw(t, "touch") == 0
+	if c.Touch && rapid.IntRange(0, 1).Draw(t, "oddQuery") == 0 {
+		c.Base = B(gen.Pick(t, "oddBase", []string{"http://h/p?a&&b=%41", "http://h/?x", "foo://h/p?k=v&", "http://h/p?a+b=c%20d#f", "file:///p?%zz&=", "foo:o?q=%26", "http://h/?&"}))
+	}
 	return c
 }
 
